@@ -164,19 +164,19 @@ var (
 	OIDExtAKID = []int{2, 5, 29, 35}
 	OIDExtEKU  = []int{2, 5, 29, 37}
 
-	OIDEKUAny           = []int{2, 5, 29, 37, 0}
-	OIDEKUServerAuth    = []int{1, 3, 6, 1, 5, 5, 7, 3, 1}
-	OIDEKUClientAuth    = []int{1, 3, 6, 1, 5, 5, 7, 3, 2}
-	OIDEKUCodeSigning   = []int{1, 3, 6, 1, 5, 5, 7, 3, 3}
-	OIDEKUEmail         = []int{1, 3, 6, 1, 5, 5, 7, 3, 4}
-	OIDEKUOCSPSigning   = []int{1, 3, 6, 1, 5, 5, 7, 3, 9}
-	OIDEKUMicrosoftSGC  = []int{1, 3, 6, 1, 4, 1, 311, 10, 3, 3}
-	OIDEKUNetscapeSGC   = []int{2, 16, 840, 1, 113730, 4, 1}
-	OIDEKUUnknownVerif  = []int{1, 3, 6, 1, 4, 1, 55555, 7, 1}
-	oidECPublicKey      = []int{1, 2, 840, 10045, 2, 1}
-	oidP256             = []int{1, 2, 840, 10045, 3, 1, 7}
-	oidP384             = []int{1, 3, 132, 0, 34}
-	oidECDSAWithSHA256  = []int{1, 2, 840, 10045, 4, 3, 2}
-	oidECDSAWithSHA384  = []int{1, 2, 840, 10045, 4, 3, 3}
-	oidEd25519          = []int{1, 3, 101, 112}
+	OIDEKUAny          = []int{2, 5, 29, 37, 0}
+	OIDEKUServerAuth   = []int{1, 3, 6, 1, 5, 5, 7, 3, 1}
+	OIDEKUClientAuth   = []int{1, 3, 6, 1, 5, 5, 7, 3, 2}
+	OIDEKUCodeSigning  = []int{1, 3, 6, 1, 5, 5, 7, 3, 3}
+	OIDEKUEmail        = []int{1, 3, 6, 1, 5, 5, 7, 3, 4}
+	OIDEKUOCSPSigning  = []int{1, 3, 6, 1, 5, 5, 7, 3, 9}
+	OIDEKUMicrosoftSGC = []int{1, 3, 6, 1, 4, 1, 311, 10, 3, 3}
+	OIDEKUNetscapeSGC  = []int{2, 16, 840, 1, 113730, 4, 1}
+	OIDEKUUnknownVerif = []int{1, 3, 6, 1, 4, 1, 55555, 7, 1}
+	oidECPublicKey     = []int{1, 2, 840, 10045, 2, 1}
+	oidP256            = []int{1, 2, 840, 10045, 3, 1, 7}
+	oidP384            = []int{1, 3, 132, 0, 34}
+	oidECDSAWithSHA256 = []int{1, 2, 840, 10045, 4, 3, 2}
+	oidECDSAWithSHA384 = []int{1, 2, 840, 10045, 4, 3, 3}
+	oidEd25519         = []int{1, 3, 101, 112}
 )
